@@ -210,7 +210,13 @@ fn run_input(ctx: &mut Ctx, real: &Real, bases: &[(&str, M)], input: &str) {
 pub fn tokens(ctx: &mut Ctx) {
     let real = Real::new();
     let k = if ctx.tier_thorough { 5 } else { 4 };
-    let bases = vec![("empty", M::default()), ("populated", populated())];
+    let mut tb = populated();
+    for (k, t) in TOKENS.iter().enumerate() {
+        tb.bindings.insert(t.to_string(), if k % 2 == 0 { Tree::I(900 + k as i32) } else { Tree::L(vec![Tree::B(true)]) });
+    }
+    tb.quote = true;
+    // what a token is does not depend on the bindings (a name that reads like an instruction or a literal may be bound)
+    let bases = vec![("empty", M::default()), ("populated", populated()), ("every-token-bound", tb)];
     let only_empty = vec![("empty", M::default())];
     let n = TOKENS.len();
     for len in 0..=k {
@@ -432,6 +438,22 @@ pub fn roundtrip(ctx: &mut Ctx, floats: bool) {
             Ok(routes) => {
                 for (route, text, original) in routes {
                     okey = text.clone();
+                    if !floats {
+                        // the same text parsed in a state where the names it mentions are bound (and a NAME.QUOTE is pending)
+                        let mut bound = M::default();
+                        for (k, n) in ["A", "B", "X", "Y", "N1", "foo", "bar", "NOOP", "INTEGER.+", "TRUE", "1"].iter().enumerate() {
+                            bound.bindings.insert(n.to_string(), Tree::I(700 + k as i32));
+                        }
+                        bound.quote = true;
+                        match parse_real(&real, &bound, &text) {
+                            Outcome::Panic(p) => problems.push((panic_class(&p), format!("{}: parsing {:?} with bound names: {}", route, text, p))),
+                            Outcome::Ok(g2) => {
+                                if g2.e != original {
+                                    problems.push((format!("roundtrip-bound:{}", route), format!("printed {:?}; parsed back in a state with bound names as [{}]", text, g2.e.iter().map(|x| x.key()).collect::<Vec<_>>().join(" "))));
+                                }
+                            }
+                        }
+                    }
                     let parsed = parse_real(&real, &M::default(), &text);
                     let g = match parsed {
                         Outcome::Panic(p) => {
